@@ -32,6 +32,7 @@ func checkC13(r *Report, p *Program) {
 	commaOkValuesUsedWhenOk(r, p, "R13.12", 20)
 	resultNotUsedBeforeErrorCheck(r, p, "R13.13")
 	foundValuesGuarded(r, p, "R13.14")
+	generatedLabelTable(r, p, "R13.15") // labels a hook sent in a wrong shape are refused, not replaced
 	// shouldContinueRolling hands latest.desiredChildMap[name] to ApplyUpdate unchecked: what makes that
 	// non-nil is that syncRevisionClaims keeps, for EVERY revision incl. the latest, only names the latest desires
 	r09_5(r, p)
